@@ -32,6 +32,7 @@ StateDiff(e, o) ==
   \cup FieldDiff(<<"wrk">>, e.wrk, o.wrk, {"p", "next"}) \cup ChDiff("wrk", e, o)
   \cup FieldDiff(<<"bcn">>, e.bcn, o.bcn, {"p", "next"}) \cup ChDiff("bcn", e, o)
   \cup FieldDiff(<<"str">>, e.str, o.str, {"p", "s"})
+  \cup (IF e.grants # o.grants THEN {<<"grants">>} ELSE {})
   \cup (IF e.vest # o.vest THEN {<<"vest">>} ELSE {})
   \cup (IF e.time # o.time THEN {<<"time">>} ELSE {})
 
@@ -56,6 +57,7 @@ DiffProps(d, ev) ==
     [] d[1] \in {"wrk", "bcn"} -> (IF d[2] = "p" THEN {"C16"} ELSE IF d[2] = "next" THEN {"C09"} ELSE {})
     [] d[1] = "str" -> (IF d[2] = "p" THEN {"C16"} ELSE {"C10", "C11"})
     [] d[1] = "halted" -> {"C14"}
+    [] d[1] = "grants" -> {"C13"}
     [] d[1] = "vest" -> {"C05"}
     [] d[1] = "outs" -> {"C09", "C07", "C11"}
     [] OTHER -> {}
